@@ -42,6 +42,14 @@ CHECKS = {
    technique="stateless exhaustive exploration of environment answers (which response, how much virtual time) around every timing boundary; event-trace monitor",
    text="40 (min,max,grace) settings in {0,T,2T,3T}^3 x 3 paths; at every receive the environment picks none/any pending response and a time advance in {T,0,1ns,T-1ns}; quick <=3 deviations over 2 rounds, thorough the full product of the first 10 choice points plus <=4 deviations over 3 rounds; monitor: publish iff the stated policy holds at the end of an iteration, never held beyond max+read-timeout, reason, next round starts at the publish instant.",
    note="virtual clock via clock_gettime interposition; reason scoped as DESIGN.md 5.5", ref="3/C08"),
+ "C03": dict(cat="model_checking", engine="E1+E2",
+   technique="stateless deviation-bounded exhaustive exploration with junk-datagram injection; inert-replacement differential oracle (no strategy reference model)",
+   text="14 base cells x 3 topologies x CLI-assigned identifier pairs (pid+i), 3 rounds: all executions with <= 2 (3 thorough) deviations where a deviation is a delay, a loss or the injection of a duplicate, a late previous-round response, a sibling tracer's Time Exceeded / Echo Reply, a quotation with another target / fixed port, or a never-sent sequence (next unissued, start-1, +300, +511, +512); plus 254-probe rounds across sequence wrap-around. Every execution containing junk is re-run with the junk replaced by a datagram the receive path drops at once: published rounds, timestamps and the final snapshot must be identical.",
+   note=ASSUME_SIM + "; 'alone' compared via inert replacement (DESIGN.md 5.2)", ref="3/C03"),
+ "C09": dict(cat="fault_enumeration", engine="E1+E2",
+   technique="exhaustive enumeration of fault position x errno over every socket call of the run (<= k faults, alone and with one scheduling deviation), statement-derived oracle",
+   text="9 configurations x round limit {1,2,3} x 2 paths: every send_to/bind/connect/select/read call is a fault position with an errno menu; all executions with <= 1 (2 thorough) faults. No fatal fault => Ok, exactly n rounds numbered 0..n-1; transient => exactly that slot Failed; TCP address-in-use => Skipped + same TTL re-issued under the next sequence; fatal => that error returned, no further round, visible in snapshot; plus silent paths with > 256 outstanding probes.",
+   note=ASSUME_SIM + "; errno classification per configuration is the code's contract (DESIGN.md 5.9)", ref="3/C09"),
 }
 
 NOT_YET = {
